@@ -3,12 +3,17 @@
     fragment run through FLisp/FPy/FGen.  Observables are mapped into FLisp.result. *)
 From Coq Require Import List ZArith NArith Bool.
 Import ListNotations.
-From Verif Require C01.Lisp C01.Py C01.Gen C01L.LLisp C01L.LPy C01L.LGen.
+From Verif Require C01.Lisp C01.Py C01.Gen C01L.LLisp C01L.LPy C01L.LGen C01X.XLisp C01X.XPy C01X.XGen.
 From Verif Require Export C01.FCorr.
 
 Inductive case :=
 | CS (e : Verif.C01.Lisp.expr)          (* first-order core: model of C01/Gen.v (simulation theorem) *)
 | CL (e : Verif.C01L.LLisp.lexpr)        (* core + loop*/recur: model of C01L/LGen.v (simulation theorem) *)
+| CX (e : Verif.C01X.XLisp.xexpr) (f : FLisp.expr)
+                                        (* core + loops + throw/try/catch/finally: model of C01X/XGen.v
+                                           (simulation theorem); f is the same program in the full
+                                           fragment, used where the C01X semantics is undefined
+                                           (type errors raised by primitives, recur through try) *)
 | CF (e : FLisp.expr).                  (* full fragment: executable model only *)
 Definition out := result.
 
@@ -32,13 +37,33 @@ Definition spec (c : case) : out :=
       | Some (Verif.C01L.LLisp.OVal v, t) => RVal (obs_s v) (map obs_s t)
       | _ => RStuck
       end
+  | CX e f =>
+      match Verif.C01X.XLisp.xeval 300 (fun _ => None) e with
+      | Some (Verif.C01X.XLisp.OVal v, t) => RVal (obs_s v) (map obs_s t)
+      | Some (Verif.C01X.XLisp.OExc c _, t) => RExc c (map obs_s t)
+      | _ => FCorr.spec f
+      end
   | CF e => FCorr.spec e
+  end.
+
+Definition x_defined (e : Verif.C01X.XLisp.xexpr) : bool :=
+  match Verif.C01X.XLisp.xeval 300 (fun _ => None) e with
+  | Some (Verif.C01X.XLisp.OVal _, _) | Some (Verif.C01X.XLisp.OExc _ _, _) => true
+  | _ => false
   end.
 
 Definition model (c : case) : out :=
   match c with
   | CS e => res_s (Verif.C01.Gen.run e)
   | CL e => res_s (Verif.C01L.LGen.lrun 300 e)
+  | CX e f =>
+      if x_defined e then
+        match Verif.C01X.XGen.xrun 300 e with
+        | Some (Verif.C01X.XGen.XRVal v t) => RVal (obs_s v) (map obs_s t)
+        | Some (Verif.C01X.XGen.XRExc c t) => RExc c (map obs_s t)
+        | None => RStuck
+        end
+      else FCorr.model f
   | CF e => FCorr.model e
   end.
 
@@ -46,5 +71,6 @@ Definition tag (c : case) : N :=
   match c with
   | CS e => if Verif.C01.Gen.hazard_free e then 0%N else 1%N
   | CL e => if Verif.C01L.LGen.hazard_free e then 0%N else 1%N
+  | CX e f => if x_defined e && Verif.C01X.XGen.hazard_free e then 0%N else FCorr.tag f
   | CF e => FCorr.tag e
   end.
